@@ -3,6 +3,7 @@ package props
 import (
 	"context"
 	"encoding/json"
+	"errors"
 	"fmt"
 	"github.com/ovn-org/libovsdb/cache"
 	"reflect"
@@ -395,4 +396,22 @@ func TestFixedC18PurgeAccessorRace(t *testing.T) {
 		_ = tc.Mapper().Schema.Name
 	}
 	<-done
+}
+
+// TestFixedC18FailedCallReply: a call that ends with its context must report that, and
+// must not look at a reply the read loop may still be writing (the data race itself needs
+// the late reply to arrive at the right moment; the wrong error is the deterministic symptom).
+func TestFixedC18FailedCallReply(t *testing.T) {
+	e := newL2Env(t, c16World(t))
+	e.write(insT0(1, "one"))
+	c, _ := kit.NewClient(e.w, e.srv.Endpoint())
+	if err := c.Connect(context.Background()); err != nil {
+		t.Fatal(err)
+	}
+	defer c.Close()
+	ctx, cancel := context.WithCancel(context.Background())
+	cancel()
+	if err := c.Echo(ctx); !errors.Is(err, context.Canceled) {
+		t.Errorf("VERIF-FAIL property=C18 class=call.wrong-error: Echo with a cancelled context returns %v", err)
+	}
 }
